@@ -910,7 +910,7 @@ func (m *Machine) concretize(t *Term) uint64 {
 	if t.Op == OpConst {
 		return t.C
 	}
-	if t.Sort.K == KBV {
+	if t.Sort.K == KBV && !noImplied {
 		if r := m.rangeOf(t); r.single() {
 			m.Stats.KnownHits++
 			if crossCheck && m.hasFloatVar(t) {
